@@ -655,3 +655,24 @@ Section Codec.
       cbn [map]. f_equal; [|exact IH]. unfold deliver. cbn [fst]. apply dec_enc. assumption.
   Qed.
 End Codec.
+
+(* ------------------------------------------------------------------ success characterised; malformed => error *)
+Definition well_framed (s : str) : Prop := exists h p rest, declares h (nlen p) /\ s = h ++ p ++ rest.
+
+Theorem read_success_iff s : (exists p n, read_frame s = Ok (RPayload p, n)) <-> well_framed s.
+Proof.
+  split.
+  - intros (p & n & H). destruct (read_consumes_exactly _ _ _ H) as (h & D & Es & _ & _).
+    exists h, p, (skipn (N.to_nat n) s). auto.
+  - intros (h & p & rest & D & ->). exists p, (nlen h + nlen p).
+    rewrite (read_frame_declared _ _ _ D), nlen_app.
+    replace (nlen p <=? nlen p + nlen rest) with true by lia.
+    rewrite nlen_to_nat, firstn_app_exact. reflexivity.
+Qed.
+
+Theorem malformed_error s : ~ well_framed s -> exists e n, read_frame s = Ok (RErr e, n) /\ n <= nlen s.
+Proof.
+  intros NW. destruct (read_total s) as (r & n & E & Hn). destruct r as [p|e].
+  - exfalso. apply NW. apply read_success_iff. eauto.
+  - eauto.
+Qed.
